@@ -670,8 +670,18 @@ func c16Pileups(c *Ctx) {
 		depths = append(depths, 4095, 4096, 4097)
 	}
 	idx := int64(0)
+	type dv struct{ n, variant int }
+	var cases []dv
 	for _, n := range depths {
-		for variant := 0; variant < 2; variant++ {
+		cases = append(cases, dv{n, 0}, dv{n, 1})
+	}
+	// tens of thousands deep: only in the cheap layout (a handful of pieces), on one CPU and on all of them
+	for _, n := range []int{65535, 65536, 65537, 70000, 1<<17 + 1} {
+		cases = append(cases, dv{n, 1}, dv{n, 2})
+	}
+	for _, cs := range cases {
+		{
+			n, variant := cs.n, cs.variant
 			c.Case(idx, func(k *K) {
 				r := k.Rand()
 				if variant == 1 {
@@ -682,7 +692,7 @@ func c16Pileups(c *Ctx) {
 				perm := r.Perm(n)        // interval NUMBERS in random order: number perm[x] covers [x, n+x)
 				for x := 0; x < n; x++ { // interval perm[x] covers [s(x), s(x) + n) with s(x) = x (staircase) or x mod 3
 					sx := x
-					if variant == 1 {
+					if variant >= 1 {
 						sx = x % 3
 					}
 					starts[perm[x]], ends[perm[x]] = sx, n+sx
